@@ -332,6 +332,19 @@ def _raises(spec, ctx):
         okc, e = ctx.call(g.sample, 3, conditions={'no_such_column': 1.0})
         ctx.check(digest() == before, 'global-state-unchanged', 'C15:seeded-sample-changed-global-state:on-raise',
                   {'sampler': 'GaussianMultivariate', 'raised': not okc})
+    # unfitted seeded models: sample() raises inside the seeded section of every sampler class
+    import copulas.univariate as cu
+    from copulas.multivariate import GaussianMultivariate, VineCopula
+    makers = [lambda n=n: getattr(cu, n)(random_state=7) for n in uni.CLASSES] + \
+             [lambda f=f: biv.cls(f)(random_state=7) for f in biv.FAMILIES] + \
+             [lambda: GaussianMultivariate(random_state=7)] + [lambda v=v: VineCopula(v, random_state=7) for v in ('center', 'direct', 'regular')]
+    for mk in makers:
+        mdl = mk()
+        np.random.seed(int(rng.integers(1 << 30)))
+        before = digest()
+        okm, e = ctx.call(mdl.sample, 3)
+        ctx.check(digest() == before, 'global-state-unchanged', 'C15:seeded-sample-changed-global-state:on-raise',
+                  {'sampler': type(mdl).__name__, 'unfitted': True, 'raised': (not okm) and type(e).__name__})
     _drain(ctx, {'mode': 'raises'})
     ctx.nontriv('r|%d' % spec['seed'])
 
